@@ -29,6 +29,7 @@ import MpycV.Lemmas.SecIntMod
 import MpycV.Lemmas.SecIntMisc
 import MpycV.Lemmas.SecIntGcd
 import MpycV.Lemmas.SecIntGcdTable
+import MpycV.Lemmas.SecIntLcm
 import Mathlib.Tactic.NormNum.Prime
 
 namespace MpycV.C01
@@ -196,6 +197,61 @@ example : divmodModel P (-7) 2 1 = (-4, 1) := by decide
 theorem fdiv_exact {p : Nat} (hp : p.Prime) {b : Int} (q : Int) (hb : ¬ (p : Int) ∣ b) (hq : Fits p q) :
     fdiv p (q * b) b = q := SecInt.fdiv_exact_fits hp q hb hq
 
+/-! ### truncation of secure integers (`Fxp.trunc` with `l` = bit length; lemmas shared with C02) -/
+
+section trunc
+open MpycV.Fxp in
+/-- **trunc_exact_on_multiples**: `trunc(a, f=d)` on a secure integer (`l` = bit length) returns `⌊a/2^d⌋` or
+`⌊a/2^d⌋ + 1` for every randomness, and exactly `a / 2^d` when `2^d ∣ a` -/
+theorem trunc_exact_on_multiples {p d l k : Nat} (hodd : p % 2 = 1) {x : Int} {rbits : List Int} {rdiv : Int}
+    (hb : IsBits rbits) (hlen : rbits.length = d) (hdl : d < l)
+    (hx0 : -(2 : Int) ^ (l - 1) ≤ x) (hx1 : x < (2 : Int) ^ (l - 1))
+    (hr0 : 0 ≤ rdiv) (hr1 : rdiv < (2 : Int) ^ (k + l - d)) (hp : (2 : Int) ^ (l + k + 1) < p) :
+    (trunc p d l x rbits rdiv = x / (2 : Int) ^ d ∨ trunc p d l x rbits rdiv = x / (2 : Int) ^ d + 1) ∧
+    ((2 : Int) ^ d ∣ x → trunc p d l x rbits rdiv = x / (2 : Int) ^ d) := by
+  obtain ⟨hR0, hR1⟩ := bitsVal_range rbits hb
+  rw [hlen] at hR1
+  have hD : (0 : Int) < (2 : Int) ^ d := two_pow_pos d
+  have hL : (0 : Int) < (2 : Int) ^ (l - 1) := two_pow_pos (l - 1)
+  have hDL : (2 : Int) ^ d ≤ (2 : Int) ^ (l - 1) := pow_le_pow_right₀ (by norm_num) (by omega)
+  -- no wrap
+  have hlo : 0 ≤ x + (2 : Int) ^ (l - 1) + rdiv * (2 : Int) ^ d := by
+    have : 0 ≤ rdiv * (2 : Int) ^ d := mul_nonneg hr0 hD.le
+    linarith
+  have hpow : (2 : Int) ^ (k + l - d) * (2 : Int) ^ d = (2 : Int) ^ (k + l) := by
+    rw [← pow_add]; congr 1; omega
+  have hhi : x + (2 : Int) ^ d + (2 : Int) ^ (l - 1) + rdiv * (2 : Int) ^ d ≤ p := by
+    have h1 : rdiv * (2 : Int) ^ d ≤ ((2 : Int) ^ (k + l - d) - 1) * (2 : Int) ^ d :=
+      mul_le_mul_of_nonneg_right (by linarith) hD.le
+    have h2 : (2 : Int) ^ (l + k + 1) = 2 * (2 : Int) ^ (k + l) := by rw [← pow_succ']; congr 1; omega
+    have h3 : 2 * (2 : Int) ^ (l - 1) ≤ (2 : Int) ^ (k + l) := by
+      rw [← pow_succ']; exact pow_le_pow_right₀ (by norm_num) (by omega)
+    have h5 : ((2 : Int) ^ (k + l - d) - 1) * (2 : Int) ^ d = (2 : Int) ^ (k + l) - (2 : Int) ^ d := by
+      rw [sub_mul, hpow, one_mul]
+    linarith
+  have hq := floor_add_small x (bitsVal rbits) ((2 : Int) ^ d) hD hR0 hR1
+  -- the quotient is small
+  have hfit : Fits p ((x + bitsVal rbits) / (2 : Int) ^ d) := by
+    unfold Fits
+    have hq0 : -(2 : Int) ^ (l - 1) ≤ (x + bitsVal rbits) / (2 : Int) ^ d := by
+      apply Int.le_ediv_of_mul_le hD
+      nlinarith
+    have hq1 : (x + bitsVal rbits) / (2 : Int) ^ d ≤ (2 : Int) ^ (l - 1) := by
+      apply Int.ediv_le_of_le_mul hD
+      nlinarith
+    have h2 : 4 * (2 : Int) ^ (l - 1) ≤ (2 : Int) ^ (l + k + 1) := by
+      have : (2 : Int) ^ (l + k + 1) = (2 : Int) ^ (l - 1) * (2 : Int) ^ (k + 2) := by rw [← pow_add]; congr 1; omega
+      have h4 : (4 : Int) ≤ (2 : Int) ^ (k + 2) := by
+        have : (2 : Int) ^ 2 ≤ (2 : Int) ^ (k + 2) := pow_le_pow_right₀ (by norm_num) (by omega)
+        simpa using this
+      nlinarith
+    have habs : |(x + bitsVal rbits) / (2 : Int) ^ d| ≤ (2 : Int) ^ (l - 1) := abs_le.2 ⟨hq0, hq1⟩
+    linarith
+  rw [trunc_eq hodd hb hlen hdl hlo hhi hfit]
+  exact hq
+end trunc
+example : MpycV.Fxp.trunc P 2 3 (-4) [1, 1] 3 = -1 ∧ MpycV.Fxp.trunc P 2 3 (-3) [0, 0] 3 = -1 ∧ MpycV.Fxp.trunc P 2 3 (-3) [1, 1] 3 = 0 := by decide
+
 /-! ### products, all, any, pow, selection, abs, min/max, matrix product -/
 
 /-- **prodTree_eq_prod**: the log-round pairing of `prod` is the product of all elements -/
@@ -279,6 +335,12 @@ theorem gcd_partial (l : Nat) (a b : Int)
     (hab : ¬ (a = 0 ∧ b = 0)) (hterm : SecInt.Terminates l a b) : gcdModel l a b = Int.gcd a b :=
   SecInt.gcd_partial l a b ha hb hab hterm
 theorem gcd_zero_zero (l : Nat) : gcdModel l 0 0 = 0 := (SecInt.gcd_zero_zero l).1
+
+/-- `lcm(a, b) = |a * (b / g)|` with `g = _gcd(a, b)` is Python's `math.lcm`, under the same termination hypothesis -/
+theorem lcm_partial (l : Nat) (a b : Int)
+    (ha : -(2 : Int) ^ l < a ∧ a < (2 : Int) ^ l) (hb : -(2 : Int) ^ l < b ∧ b < (2 : Int) ^ l)
+    (hab : ¬ (a = 0 ∧ b = 0)) (hterm : SecInt.Terminates l a b) : lcmModel l a b = Int.lcm a b :=
+  SecInt.lcm_partial l a b ha hb hab hterm
 
 /-- Bézout bookkeeping of `_divsteps` (first argument odd): `f = u*a + v*b`, `gcd(f, g) = gcd(a, b)` throughout,
 and `|f| = gcd(a, b)` once `g = 0` -/
